@@ -74,6 +74,7 @@ func DeployPayload(src string, args []byte, version int32) ([]byte, error) {
 }
 
 // Lua contracts used by the generated mixes (run on the shim VM through the real host layer).
+// LuaBank is the general purpose contract of the generated mixes.
 const LuaBank = `
 state.var { cnt = state.value(), m = state.map() }
 function constructor() cnt:set(0) end
